@@ -157,3 +157,8 @@ def run(chk):
         c04.rule_pairs(chk)
     rule_noglobal(chk)
     rule_users(chk)
+    # generator-based coroutines (eliot.twisted.inline_callbacks) are resumed only inside their own context
+    from . import c15
+    cvar = c15.rule_ctx(chk)
+    if cvar:
+        c15.rule_inside(chk, cvar)
